@@ -66,7 +66,11 @@ def umeyama_alignment(x: np.ndarray, y: np.ndarray,
 
     # SVD (text betw. eq. 38 and 39)
     u, d, v = np.linalg.svd(cov_xy)
-    if np.count_nonzero(d > np.finfo(d.dtype).eps) < m - 1:
+    # Singular values of a rank deficient matrix are only zero up to rounding
+    # errors relative to the largest one, see also numpy.linalg.matrix_rank().
+    eps = np.finfo(d.dtype).eps
+    rank_tolerance = max(eps, d.max() * m * eps)
+    if np.count_nonzero(d > rank_tolerance) < m - 1:
         raise GeometryException("Degenerate covariance rank, "
                                 "Umeyama alignment is not possible")
 
